@@ -88,6 +88,10 @@ def ps_lattice(rng, tier: str) -> list[bytes]:
     post = [b"", b'"', b"'", b"')", b"') do x", b'" & y', b" tail", b" (", b"' (", b"\x00x"]
     out = []
     combos = list(itertools.product(pre, tok, args, post))
+    plain_args = []
+    if tier == "thorough" and len(combos) > 60000:
+        plain_args = [a for a in args if not any(c in a for c in (B64[:8], b"QUJ", b"//", b"QQBC", b"4pyT", b"ANgA", b"AGgA"))]
+        combos = rng.sample(combos, 60000) + list(itertools.product(pre, tok, plain_args, post))
     if tier == "quick":
         # every context x closer for the commands without encoded argument (where the span rule is the context rule), a sample of the rest
         plain_args = [a for a in args if not any(c in a for c in (B64[:8], b"QUJ", b"//", b"QQBC", b"4pyT", b"ANgA", b"AGgA"))]
@@ -170,11 +174,7 @@ def run(prop: str, tier: str) -> int:
         for ev in events:
             f.write(json.dumps(ev) + "\n")
     n = len(events)
-    r = tlc.run("ShellTrace", "SPECIFICATION Spec\nCHECK_DEADLOCK FALSE\n", env={"TRACE_FILE": path}, timeout=3000, heap="12g")
-    v = r.verdicts()
-    judged = [t for t, cl in v.items() if "ACCEPT" in cl or "REJECT" in cl]
-    if not r.completed or len(judged) != n:
-        raise MachineryError(f"ShellTrace: {len(judged)}/{n} judged\n" + r.diagnosis())
+    v, r = tlc.run_trace("ShellTrace", "SPECIFICATION Spec\nCHECK_DEADLOCK FALSE\n", path, n, max_lines=40000, max_bytes=40_000_000)
     na = 0
     for t, cl in v.items():
         if "n/a" in cl:
